@@ -37,6 +37,18 @@ def gen_program(rng, k):
     return "".join(src[i] for i in rng_order) + src[-1]
 
 
+def gen_task_program(rng, k):
+    """one task carrying several function block instances that write a shared global: their execution order and the
+    order of their references in the container must follow the declaration"""
+    n = rng.range(2, 9)
+    decl = "".join("  fb%d : Stamp;\n" % i for i in range(n))
+    assoc = ", ".join("fb%d WITH T" % i for i in (list(range(n)) if rng.below(2) else list(reversed(range(n)))))
+    return ("FUNCTION_BLOCK Stamp\nVAR_EXTERNAL\n order : LINT;\n seq : LINT;\nEND_VAR\nVAR\n mine : LINT;\nEND_VAR\nseq := seq + LINT#1;\nmine := seq;\norder := (order * LINT#%d + mine) MOD LINT#1000003;\nEND_FUNCTION_BLOCK\n"
+            "PROGRAM Main\nVAR\n%s  flag : BOOL;\n  cnt : INT;\nEND_VAR\ncnt := cnt + INT#1;\nEND_PROGRAM\n"
+            "CONFIGURATION Cfg%d\nRESOURCE R ON CPU\nVAR_GLOBAL\n order : LINT := 0;\n seq : LINT := 0;\nEND_VAR\nTASK T (INTERVAL := T#1ms, PRIORITY := 0);\nPROGRAM P1 WITH T : Main (%s);\nEND_RESOURCE\nEND_CONFIGURATION\n"
+            % (rng.range(3, 17), decl, k, assoc))
+
+
 def gen_trace(rng):
     now = 0; lines = []
     for _ in range(rng.range(2, 8)):
@@ -62,7 +74,7 @@ def check(tier):
     nprog = 12 if tier == "quick" else 150
     jobs = []
     for k in range(nprog):
-        src = gen_program(rng, k); trace = gen_trace(rng)
+        src = (gen_task_program(rng, k) if k % 3 == 2 else gen_program(rng, k)); trace = gen_trace(rng)
         sf = os.path.join(WORK, "p%d.st" % k); tf = os.path.join(WORK, "p%d.trace" % k)
         open(sf, "w").write(src); open(tf, "w").write(trace)
         jobs += [("compile", k, [harness, "compile", sf])] * 3 + [("run", k, [harness, "run", sf, tf])] * 2
